@@ -210,6 +210,48 @@ def check_sequence(r, w, fam):
         ok, got = r.call('crossings', dict(sub0, input='int16 x100'), pc.get_zero_crossings_array_indices, xi16)
         if ok:
             r.expect_ints('crossings.exact', dict(sub0, input='int16 x100'), got, ref.zero_crossings(w, False))
+    # the statement is exact and scale-free: the same pattern at 1e-9 of the amplitude
+    xs = np.array(w, dtype=float) * 1e-9
+    for keep in (False, True):
+        ok, got = r.call('crossings', dict(sub0, input='x1e-9', keep=keep), pc.get_zero_crossings_array_indices, xs, keep_adj_zeros=keep)
+        if ok:
+            r.expect_ints('crossings.exact', dict(sub0, input='x1e-9', keep=keep), got, ref.zero_crossings(w, keep))
+    if nonconst:
+        ok, got = r.call('switched', dict(sub0, input='x1e-9'), pc.get_switched_peak_array_indices, xs)
+        if ok:
+            try:
+                errs = ref.check_switched(w, as_ints(got))
+                r.n_cmp += 1
+                if errs:
+                    r.fail('switched.' + errs[0][0], dict(sub0, input='x1e-9'), errs[0][1], observed=got)
+            except Exception as e:
+                r.fail('switched', dict(sub0, input='x1e-9'), 'malformed: %s' % e)
+    # object-level wrappers on an object whose record is replaced / edited between two queries
+    if n <= 5:
+        w2 = list(w[::-1])
+        for cls_ in (eqsig.Signal, eqsig.AccSignal):
+            for ename, edit, wn in (('reset_values', lambda sg: sg.reset_values(np.array(w2, dtype=float)), w2),
+                                    ('add_constant', lambda sg: sg.add_constant(3.0), [v + 3.0 for v in w])):
+                sub = dict(sub0, input=cls_.__name__ + '-reused', edit=ename)
+
+                def reused():
+                    sg = cls_(np.array(w, dtype=float), 0.01)
+                    pc.get_zero_crossings_indices(sg)
+                    if nonconst:
+                        pc.get_switched_peak_indices(sg)
+                    edit(sg)
+                    return pc.get_zero_crossings_indices(sg), (pc.get_switched_peak_indices(sg) if len(set(wn)) > 1 else None)
+                ok, got = r.call('crossings', sub, reused)
+                if ok:
+                    r.expect_ints('crossings.object-after-edit', sub, got[0], ref.zero_crossings(wn, False))
+                    if got[1] is not None:
+                        try:
+                            errs = ref.check_switched(wn, as_ints(got[1]))
+                            r.n_cmp += 1
+                            if errs:
+                                r.fail('switched.object-after-edit', sub, errs[0][1], observed=got[1])
+                        except Exception as e:
+                            r.fail('switched.object-after-edit', sub, 'malformed: %s' % e)
     r.cls('same-array-sequence')
 
 
